@@ -12,3 +12,5 @@ import LyModel.Props.C07
 #print axioms LyModel.Props.C07.validate_idempotent_choice_fails
 #print axioms LyModel.Props.C07.validate_idempotent_choice_F188_fails
 #print axioms LyModel.Props.C07.np_cont_dflt_validate
+#print axioms LyModel.Props.C07.implicit_exact_choice
+#print axioms LyModel.Props.C07.implicit_exact_choice_F180_fails
